@@ -89,4 +89,107 @@ theorem snapOk_hook (c : Con) (hwf : c.bc.WF) (n ch : Nat) (h : SnapOk c n ch) (
     · intro _; exact b4 ch h1
   · exact h
 
+
+theorem hook_pc (c : Con) (nonce : Nat) (res : Bool) (v e : Nat) : (hook c nonce res v e).pc = c.pc := by
+  unfold hook
+  cases c.op <;> simp <;> (repeat' split) <;> rfl
+
+theorem hook_op (c : Con) (nonce : Nat) (res : Bool) (v e : Nat) : (hook c nonce res v e).op = c.op := by
+  unfold hook
+  cases hop : c.op <;> simp <;> (repeat' split) <;> simp [hop]
+
+theorem conOk_hook (c : Con) (h : ConOk c) (nonce : Nat) (res : Bool) (v e : Nat) :
+    ConOk (hook c nonce res v e) := by
+  cases hop : c.op with
+  | access =>
+    have hpc := hook_pc c nonce res v e
+    have hsn : ∀ n ch, SnapOk c n ch → SnapOk (hook c nonce res v e) n ch :=
+      fun n ch hs => snapOk_hook c h.1 n ch hs nonce res v e hop
+    have hwf : (hook c nonce res v e).bc.WF := by
+      unfold hook; rw [hop]; simp only
+      split
+      · exact (Bcast.broadcast_spec c.bc).2.2.1
+      · exact h.1
+    have hval : ∀ (n w : Nat), n ≤ c.cnonce → (c.cnonce = n → c.cres = true ∧ c.cv = w ∧ c.ce = 0) →
+        ((hook c nonce res v e).cnonce = n →
+          (hook c nonce res v e).cres = true ∧ (hook c nonce res v e).cv = w ∧ (hook c nonce res v e).ce = 0) := by
+      intro n w hle hold
+      unfold hook; rw [hop]; simp only
+      split
+      · intro hn; simp at hn; omega
+      · exact hold
+    unfold ConOk at h ⊢
+    refine ⟨hwf, ?_⟩
+    rw [hpc]
+    cases hp : c.pc <;> simp [hp] at h ⊢
+    · exact ⟨hsn _ _ h.2.1, hval _ _ h.2.1.2.1 h.2.2⟩
+    · exact ⟨hsn _ _ h.2.1, hval _ _ h.2.1.2.1 h.2.2⟩
+    · exact hsn _ _ h.2
+    · exact hsn _ _ h.2
+    · exact hsn _ _ h.2
+  | wait =>
+    refine conOk_frame c _ h ?_ ?_ ?_ ?_ ?_ (hook_pc c nonce res v e) <;> (unfold hook; rw [hop])
+  | resolve =>
+    refine conOk_frame c _ h ?_ ?_ ?_ ?_ ?_ (hook_pc c nonce res v e) <;> (unfold hook; rw [hop])
+  | rwr cb =>
+    refine conOk_frame c _ h ?_ ?_ ?_ ?_ ?_ (hook_pc c nonce res v e) <;>
+      (unfold hook; rw [hop]; simp only; (repeat' split) <;> rfl)
+
+
+/-! ## the invariant of the composed model -/
+
+structure CInv (s : CSt) : Prop where
+  base : Inv s.b
+  cons : ∀ (a : Nat) (c : Con), getCon s a = some c → ConOk c
+
+theorem getCon_base (s : CSt) (b' : St) (a : Nat) : getCon { s with b := b' } a = getCon s a := rfl
+
+theorem getCon_append_none (s : CSt) (b' : St) (a : Nat) (c : Con)
+    (h : getCon { s with b := b', ct := s.ct ++ [none] } a = some c) : getCon s a = some c := by
+  unfold getCon at h ⊢
+  simp only at h
+  by_cases hlt : a < s.ct.length
+  · rw [List.getElem?_append_left hlt] at h; exact h
+  · rw [List.getElem?_append_right (by omega)] at h
+    cases hx : ([none] : List (Option Con))[a - s.ct.length]? with
+    | none => simp [hx] at h
+    | some y =>
+      have : y = none := by
+        have := List.mem_of_getElem? hx; simpa using this
+      simp [hx, this] at h
+
+theorem getCon_append_some (s : CSt) (b' : St) (n : Con) (a : Nat) (c : Con)
+    (h : getCon { b := b', ct := s.ct ++ [some n] } a = some c) : getCon s a = some c ∨ c = n := by
+  unfold getCon at h ⊢
+  simp only at h
+  by_cases hlt : a < s.ct.length
+  · rw [List.getElem?_append_left hlt] at h; exact Or.inl h
+  · rw [List.getElem?_append_right (by omega)] at h
+    cases hx : ([some n] : List (Option Con))[a - s.ct.length]? with
+    | none => simp [hx] at h
+    | some y =>
+      have : y = some n := by
+        have := List.mem_of_getElem? hx; simpa using this
+      simp [hx, this] at h; exact Or.inr h.symm
+
+/-- writing one consumer entry: the others keep the invariant -/
+theorem cinv_setCon (s : CSt) (a : Nat) (c : Con) (hb : Inv s.b)
+    (hc : ∀ (b : Nat) (x : Con), getCon s b = some x → ConOk x) (hok : ConOk c) : CInv (setCon s a c) := by
+  refine ⟨hb, ?_⟩
+  intro b x hx
+  rcases getCon_setCon_cases s a b c x hx with ⟨_, rfl⟩ | ⟨_, h⟩
+  · exact hok
+  · exact hc b x h
+
+theorem exitRel_inv (s s' : CSt) (a : Nat) (c : Con) (v e : Nat) (hi : CInv s) (hc : ConOk c)
+    (h : exitRel s a c v e = some s') : CInv s' := by
+  unfold exitRel at h
+  cases hst : step s.b (.selfRelSwap a) with
+  | none => simp [hst] at h
+  | some b' =>
+    simp [hst] at h; subst h
+    have hb := step_inv s.b _ b' hi.base hst
+    refine cinv_setCon { s with b := b' } a _ hb (fun b x hx => hi.cons b x hx) ?_
+    exact conOk_pc c _ hc rfl (by simp)
+
 end UtilModel.RefCount.Cons
